@@ -1433,7 +1433,7 @@ class _TextCensus:
                     flat[-1] = ('lit', flat[-1][1] + p[1])
                 elif not (p[0] == 'lit' and p[1] == ''):
                     flat.append(p)
-            self.lines.append((self.cur_fn, [('lit', p[1]) if p[0] == 'lit' else ('fld', self.alias.get(p[3], p[3])) for p in flat]))
+            self.lines.append((self.cur_fn, [('lit', p[1]) if p[0] == 'lit' else ('fld', self.alias.get(p[3], p[3]), bool(p[1])) for p in flat]))
             if cond and any(p[0] == 'fld' and p[3] in cond for p in flat):
                 self.cond_lines.append([('lit', p[1]) if p[0] == 'lit' else ('fld', p[3] in cond, self.alias.get(p[3], p[3])) for p in flat])
             for i, p in enumerate(flat):
@@ -2029,6 +2029,108 @@ def _vmt_needs_quotes(vmt_tree: ast.Module) -> tuple[str, dict]:
     return line, {'empty': empty, 'leading': sorted(set(leading)), 'disallowed': sorted(set(disallowed))}
 
 
+_BARE_DELIMS = set('"\'{};,=[]()\r\n\t ')
+
+
+def _line_items(template: list[tuple]) -> list[str] | None:
+    """One written template (('lit', text) / ('fld', source, escaped)) as Fmt/TextLines.v items, or None when it is not made of
+    self-delimiting items (a quoted string mixing text and fields, a keyword or bare field not followed by space / tab / newline,
+    an escaped field outside quotes, a carriage return ...)."""
+    stream: list[tuple] = []
+    for p in template:
+        if p[0] == 'lit':
+            stream += [('c', ch) for ch in p[1]]
+        else:
+            stream.append(('f', p[2]))
+    items: list[str] = []
+    shown: list[str] = []          # re-rendering, to compare with the template
+    i = 0
+
+    def ch(k: int) -> str | None:
+        return stream[k][1] if k < len(stream) and stream[k][0] == 'c' else None
+
+    def lit(t: str) -> str:
+        return '[' + '; '.join(str(ord(c)) for c in t) + ']'
+    while i < len(stream):
+        kind, x = stream[i]
+        if kind == 'c' and x in ' \t':
+            j = i
+            while ch(j) is not None and ch(j) in ' \t':
+                j += 1
+            run = ''.join(stream[k][1] for k in range(i, j))
+            items.append(f'IWs {lit(run)}')
+            shown.append(run)
+            i = j
+        elif kind == 'c' and x == '\n':
+            items.append('INl')
+            shown.append('\n')
+            i += 1
+        elif kind == 'c' and x in '{}':
+            items.append('IBO' if x == '{' else 'IBC')
+            shown.append(x)
+            i += 1
+        elif kind == 'c' and x == '"':
+            if i + 2 < len(stream) and stream[i + 1][0] == 'f' and ch(i + 2) == '"':
+                items.append('IQEsc' if stream[i + 1][1] else 'IQRaw')
+                shown.append('"\0"')
+                i += 3
+                continue
+            j = i + 1
+            while ch(j) is not None and ch(j) != '"':
+                j += 1
+            if ch(j) != '"':
+                return None                     # a field inside a longer quoted string, or an unterminated quote
+            text = ''.join(stream[k][1] for k in range(i + 1, j))
+            if any(c in text for c in '\\\r\n') or any(ord(c) > 126 for c in text):
+                return None
+            items.append(f'IQLit {lit(text)}')
+            shown.append('"' + text + '"')
+            i = j + 1
+        elif kind == 'f':
+            d = ch(i + 1)
+            if x or d is None or d not in ' \t\n':
+                return None
+            items.append(f'IBare {ord(d)}')
+            shown.append('\0' + d)
+            i += 2
+        elif kind == 'c' and x not in _BARE_DELIMS and x not in '/#' and ord(x) < 127:
+            j = i
+            while ch(j) is not None and ch(j) not in _BARE_DELIMS and ord(ch(j)) < 127:
+                j += 1
+            d = ch(j)
+            if d is None or d not in ' \t\n':
+                return None
+            word = ''.join(stream[k][1] for k in range(i, j))
+            items.append(f'IWord {lit(word)} {ord(d)}')
+            shown.append(word + d)
+            i = j + 1
+        else:
+            return None
+    want = ''.join(p[1] if p[0] == 'lit' else '\0' for p in template)
+    if ''.join(shown) != want:
+        raise TranslateError(f'text line items do not render back to the template {want!r}')
+    return items
+
+
+def _coq_lines(name: str, lines: list[list[tuple]]) -> tuple[str, int]:
+    rows = []
+    bad = 0
+    seen: set[str] = set()
+    for tpl in lines:
+        it = _line_items(tpl)
+        if it is None:
+            bad += 1
+            continue
+        row = '[' + '; '.join(it) + ']%N'
+        if row not in seen:
+            seen.add(row)
+            rows.append(row)
+    rows.sort()            # the census is a set of templates: independent of the order of the statements
+    body = ';\n  '.join(rows)
+    return (f'Definition {name} : list (list titem) := [\n  {body}\n].\n'
+            f'Definition {name}_unstructured : nat := {bad}.   (* written templates that are not made of self-delimiting items *)'), bad
+
+
 def translate_text_writers() -> tuple[str, dict]:
     # ---- soundscripts
     snd = _TextCensus('sndscript.py')
@@ -2055,11 +2157,12 @@ def translate_text_writers() -> tuple[str, dict]:
     nq_line += f'\nDefinition vmt_param_line_writes_the_name_attribute_then_the_value_attribute : bool := {str(bool(order_ok)).lower()}.'
     # the frame of the file: Material.export writes `<shader>\n\t{\n` first, the parameter lines next, `\t}\n` last
     exp_lines = [l for fn_, l in vmt.lines if fn_ == 'Material.export']
-    frame_ok = len(exp_lines) >= 3 and exp_lines[0] == [('fld', 'self.shader'), ('lit', '\n\t{\n')] and exp_lines[-1] == [('lit', '\t}\n')] \
+    frame_ok = len(exp_lines) >= 3 and [x[:2] for x in exp_lines[0]] == [('fld', 'self.shader'), ('lit', '\n\t{\n')] and exp_lines[-1] == [('lit', '\t}\n')] \
         and [x[0] for x in exp_lines[1]] == ['lit', 'fld', 'lit', 'fld', 'lit'] and line_ok
     nq_line += f'\nDefinition vmt_file_is_shader_brace_parameter_lines_brace : bool := {str(bool(frame_ok)).lower()}.'
     nq_side['export_templates'] = [[list(x) for x in l] for l in exp_lines]
     nq_side['param_line_templates'] = [[list(x) for x in cl] for cl in vmt.cond_lines]
+    snd_lines_coq, snd_bad = _coq_lines('snd_lines', [l for fn_, l in snd.lines if fn_ == 'Sound.export'])
     # ---- choreo text
     cho = _TextCensus('choreo.py')
     tags_const = cho.const_callers('export_text', 3)
@@ -2078,7 +2181,7 @@ def translate_text_writers() -> tuple[str, dict]:
         '(* GENERATED by translate/c20_formats.py from sndscript.py (Sound.export, Sound.parse_one), vmt.py (Material.export, _write_block),',
         '   choreo.py (the export_text methods). Do not edit. *)',
         'From Coq Require Import NArith List.', 'Import ListNotations.',
-        'From SV Require Import Fmt.TextFields Fmt.SndStacks Fmt.VmtQuote.',
+        'From SV Require Import Fmt.TextFields Fmt.SndStacks Fmt.VmtQuote Fmt.TextLines.',
         _coq_sites('snd_fields', snd.sites),
         _coq_sites('vmt_fields', vmt.sites),
         _coq_sites('cho_fields', cho.sites),
@@ -2088,10 +2191,12 @@ def translate_text_writers() -> tuple[str, dict]:
         + '; '.join(f'({cs(a)}, {cs(b)})' for a, b in read) + '].   (* block name, attribute it is read into *)',
         *model_lines,
         nq_line,
+        snd_lines_coq,
         '',
     ]
     side = {'sndscript': [list(s) for s in snd.sites], 'vmt': [list(s) for s in vmt.sites], 'choreo': [list(s) for s in cho.sites],
             'stacks_written': written, 'stacks_read': read, 'stack_model': model_side, 'vmt_needs_quotes': nq_side,
+            'sndscript_lines': [[list(x) for x in l] for fn_, l in snd.lines if fn_ == 'Sound.export'], 'sndscript_lines_unstructured': snd_bad,
             'digests': {'Sound.export': ast_digest(fn_snd)}}
     return '\n'.join(lines), side
 
